@@ -537,8 +537,67 @@ func c10Trees(r *mon.Run) []func() *c10Tree {
 	return mk
 }
 
+// c10ConstructFaults: an item whose rendering fails, at the first, a middle and the last position of every list
+// construct (the 35 of C13, among them Types, Union, Defs, Custom …): every entry point must return that error and
+// write nothing — no construct may lose the error of one of its items.
+func c10ConstructFaults(r *mon.Run) {
+	if !hooksAvailable {
+		r.Count("construct_faults.skipped_without_hooks", 1)
+		return
+	}
+	for ci, k := range listConstructs() {
+		for pos := 0; pos < 3; pos++ {
+			c := mon.Case{Gen: "construct-fault", Seed: r.Seed, Index: int64(ci*3 + pos)}
+			build := func() *jen.Statement {
+				items := []jen.Code{jen.Id("x1q"), jen.Id("x2q"), jen.Id("x3q")}
+				items[pos] = newProbe(pos, jen.Id("failingQ"), nil, func(int) error { return errInjectedRender })
+				return k.mk(items...)
+			}
+			for _, ep := range []string{"File.Render", "File.Render(NoFormat)", "Statement.Render", "Statement.RenderWithFile", "File.GoString"} {
+				w := &monWriter{}
+				var err error
+				p, what := mon.Guard(func() {
+					switch ep {
+					case "File.Render", "File.Render(NoFormat)":
+						f := jen.NewFile("p")
+						f.NoFormat = ep != "File.Render"
+						f.Func().Id("host").Params().Block(jen.Id("_").Op("=").Add(build()))
+						err = f.Render(w)
+					case "Statement.Render":
+						err = build().Render(w)
+					case "Statement.RenderWithFile":
+						err = build().RenderWithFile(w, jen.NewFile("p"))
+					default:
+						f := jen.NewFile("p")
+						f.Add(build())
+						defer func() {
+							if rec := recover(); rec != nil {
+								err = errInjectedRender // GoString panics with the render error: that is its way of reporting
+							}
+						}()
+						_ = f.GoString()
+						err = nil
+					}
+				})
+				switch {
+				case p:
+					r.Violate("panic", c, "%s with a failing item at position %d, %s: panic %s", k.name, pos, ep, mon.Trunc(what, 200))
+				case err == nil:
+					r.Violate("render-error-swallowed", c, "%s with an item whose rendering fails at position %d of 3: %s returned nil (wrote %d bytes)", k.name, pos, ep, len(w.data))
+				case ep != "File.GoString" && !errors.Is(err, errInjectedRender):
+					r.Violate("render-error-replaced", c, "%s with a failing item at position %d: %s returned %q instead of the item's error", k.name, pos, ep, mon.Trunc(err.Error(), 120))
+				case w.calls != 0:
+					r.Violate("wrote-before-failure", c, "%s with a failing item at position %d: %s returned the error after writing %d bytes", k.name, pos, ep, len(w.data))
+				}
+				r.Count("construct_faults", 1)
+			}
+			r.Eval(fmt.Sprintf("construct-fault|%s|%d", k.name, pos), true)
+		}
+	}
+}
+
 func runC10(r *mon.Run) {
-	r.SetRule("fault matrix, enumerated completely for every tree: cause in {invalid composition -> formatter error; render error injected at node i (probe; first, last, middle, one seeded); writer error on write k = 1..W reporting 0, half or all bytes written; target is a directory; parent missing; path component is a file; name too long; a full device (private node with the numbers of /dev/full: ENOSPC on write); existing longer / empty / no target file} x entry point in {File.Render, File.Save, Statement.Render, Statement.RenderWithFile, Group.Render, Group.RenderWithFile}; trees: real programs (every third one damaged so that the formatter rejects it) and random grammar-biased compositions. non-trivial = every tree; distinct by tree")
+	r.SetRule("fault matrix, enumerated completely for every tree: cause in {invalid composition -> formatter error; render error injected at node i (probe; first, last, middle, one seeded); writer error on write k = 1..W reporting 0, half or all bytes written; target is a directory; parent missing; path component is a file; name too long; a full device (private node with the numbers of /dev/full: ENOSPC on write); existing longer / empty / no target file} x entry point in {File.Render, File.Save, Statement.Render, Statement.RenderWithFile, Group.Render, Group.RenderWithFile}; plus, for each of 35 list constructs, an item that fails to render at the first, middle and last position through five entry points; trees: real programs (every third one damaged so that the formatter rejects it) and random grammar-biased compositions. non-trivial = every tree; distinct by tree")
 	r.Assume("running as root, permission bits cannot make a directory unwritable; that cause is realised by the missing-parent / component-is-a-file / directory / name-too-long / /dev/full targets")
 	r.SetExhaustive(false)
 	dir := filepath.Join(mon.VerifDir, "bin", fmt.Sprintf("c10-%d", os.Getpid()))
@@ -559,6 +618,7 @@ func runC10(r *mon.Run) {
 		}
 	}
 	r.Put("full_device_available", fullDev != "")
+	c10ConstructFaults(r)
 	mk := c10Trees(r)
 	mon.Parallel(len(mk), func(i int) {
 		t := mk[i]()
